@@ -320,11 +320,28 @@ def run_case(case):
     state = {"f": f, "b": b}
     sch, variant, nrows, depth = case["schema"], case["variant"], case["nrows"], case["depth"]
 
+    def counterpart():
+        """a frame in another block with the SAME column names but other column types (text <-> numeric),
+        read before every verification: nothing a reader learns from one frame may be applied to another"""
+        if state.get("cpb") is not state["b"]:
+            alt = {"text": "int64", "int64": "text", "float64": "text", "bool": "text", "int8": "text"}
+            cm = Model([alt[t] for t in sch], 2)
+            cb = state["f"].blocks["cp"] if "cp" in state["f"].blocks else state["f"].create_block("cp", "t")
+            if "df1" not in cb.data_frames and state["f"].mode != nix.FileMode.ReadOnly:
+                create(cb, "df1", cm, "col_dict")
+            state["cpb"], state["cpm"] = state["b"], cm
+        cb = state["f"].blocks["cp"]
+        if "df1" in cb.data_frames:
+            return verify(r, cb.data_frames["df1"], state["cpm"], "counterpart-frame-same-column-names", "in-session")
+        return True
+
     def run_hist(hist):
         counter[0] += 1
         name = "df%d" % counter[0]
         r.evals += 1
         m = Model(sch, nrows)
+        if not counterpart():
+            return False
         try:
             df = create(state["b"], name, m, variant)
         except Exception as e:  # noqa
@@ -371,6 +388,8 @@ def run_case(case):
                 r.outcomes.add("ok:" + op[0])
             if ok:
                 ok = verify(r, df, m, opk, "in-session") and verify(r, held, m, opk, "second-handle")
+            if ok and last:
+                ok = counterpart() and verify(r, df, m, opk, "after-reading-counterpart")
             if not ok:
                 if not last:
                     del r.violations[nv:]
